@@ -12,7 +12,7 @@ from checks import c01_kv_roundtrip as c01
 PROPERTY = 'C14'
 LEVEL = 'exploration'
 RULE = (
-    'Hypothesis generates graph descriptors (1-12 elements with type/name/UUID; 0-6 attributes each of one of the 14 '
+    'Hypothesis generates graph descriptors (1-12 elements (quick tier: 1-8) with type/name/UUID; 0-7 attributes each of one of the 14 '
     'value types, scalar or array incl. empty; element attributes point at element indices, NULL or stub UUIDs, so DAG '
     'sharing, self references and cycles arise directly) plus a unicode mode; every graph is exported in binary v1-v5 / '
     'KeyValues2 nested+flat x cull_uuid and parsed back; non-trivial = >=2 reachable elements with a shared or cyclic '
@@ -53,7 +53,9 @@ FMT_NAMES = ['dmx', 'pcf', 'model', 'sfm_session', 'x']
 def _common(tier: str, nul: bool = False):
     big = tier != 'quick'
     return {
-        'graph': dmxgen.graph_descs(max_attrs=7 if big else 6, max_array=6 if big else 5, nul=nul),
+        # quick: smaller graphs (generation dominates the cost); thorough: the full 12-element domain.
+        'graph': dmxgen.graph_descs(max_elems=12 if big else 8, max_attrs=7 if big else 5,
+                                    max_array=6 if big else 4, nul=nul),
         'mode': st.sampled_from(MODES + ['format', 'silent']),
         'parse_unicode': st.booleans(),
         'fmt': st.tuples(st.sampled_from(FMT_NAMES), st.integers(0, 99)).map(list),
@@ -487,18 +489,18 @@ _SHAPES = ('shared', 'cycle', 'self_ref', 'empty_array', 'stub', 'stub_in_array'
            'non_ascii', 'ascii_rejected', 'mode:ascii', 'mode:format', 'mode:silent')
 
 SUBCHECKS = [
-    Sub('binary', execute_binary, strategy=strategy_binary, quick=3000, thorough=70000, floor=300, quick_shards=5,
+    Sub('binary', execute_binary, strategy=strategy_binary, quick=2000, thorough=70000, floor=300, quick_shards=5,
         must_hit=_SHAPES + ('time_rejected',) + _cells_must(
             ['bin1', 'bin2', 'bin3', 'bin4', 'bin5'], skip={('time', 'bin1'), ('time', 'bin2')})),
-    Sub('kv2', execute_kv2, strategy=strategy_kv2, quick=1200, thorough=40000, floor=100, quick_shards=4,
+    Sub('kv2', execute_kv2, strategy=strategy_kv2, quick=800, thorough=40000, floor=100, quick_shards=4,
         must_hit=_SHAPES + ('cull_uuid_dropped',) + _cells_must(['kv2n', 'kv2f'])),
-    Sub('binary-decoder', execute_decoder, strategy=strategy_decoder, quick=2400, thorough=50000, floor=200,
+    Sub('binary-decoder', execute_decoder, strategy=strategy_decoder, quick=1500, thorough=50000, floor=200,
         quick_shards=4,
         must_hit=('v1', 'v2', 'v3', 'v4', 'v5', 'stub', 'stub_in_array', 'null_in_array', 'non_ascii')
         + _cells_must(['bin5'])),
-    Sub('kv1-bridge', execute_kv1, strategy=strategy_kv1, quick=2000, thorough=100000, floor=100, quick_shards=2,
+    Sub('kv1-bridge', execute_kv1, strategy=strategy_kv1, quick=1200, thorough=100000, floor=100, quick_shards=2,
         must_hit=('block', 'leaf', 'dup_leaf', 'reserved_leaf', 'mixed', 'empty_block', 'root', 'single')),
-    Sub('kv1-export', execute_kv1_export, strategy=strategy_kv1, quick=600, thorough=20000, floor=20, quick_shards=1,
+    Sub('kv1-export', execute_kv1_export, strategy=strategy_kv1, quick=400, thorough=20000, floor=20, quick_shards=1,
         must_hit=('via:binary5', 'via:kv2', 'mixed', 'dup_leaf')),
 ]
 
